@@ -464,6 +464,26 @@ class TreeModel:
                     return o, None
                 cur = p
             return {ACCEPT}, cur
+        if k == "listof":
+            if v["t"] != "list":
+                return {REJECT}, None
+            cur = ctx
+            for c in v["c"]:
+                o, p = self.leaf_match(spec["item"], c, cur, label, flat)
+                if o != {ACCEPT}:
+                    return o, None
+                cur = p
+            return {ACCEPT}, cur
+        if k == "dictof":
+            if v["t"] != "dict":
+                return {REJECT}, None
+            cur = ctx
+            for _, c in v["c"]:
+                o, p = self.leaf_match(spec["item"], c, cur, label, flat)
+                if o != {ACCEPT}:
+                    return o, None
+                cur = p
+            return {ACCEPT}, cur
         if k == "union":
             outs = set()
             for it in spec["items"]:
